@@ -371,70 +371,79 @@ pub fn pfb_view(p: &PayloadFeedback, data: &[u8], pfx: &str) -> Rec {
 /// Touch the accessors of a parsed value in another order than the view functions do (last field first,
 /// iterators from their last element, FCI types in reverse), discarding the results.
 pub trait Scramble {
-    fn scramble(&self);
+    /// returns what was read, in the order it was read
+    fn scramble(&self) -> Value;
 }
 impl Scramble for SenderReport<'_> {
-    fn scramble(&self) {
-        let _ = self.report_blocks().last().map(|b| (b.delay_since_last_sender_report_timestamp(), b.ssrc()));
-        let _ = (self.n_reports(), self.octet_count(), self.packet_count(), self.rtp_timestamp(), self.ntp_timestamp(), self.padding(), self.ssrc());
-        let _ = (self.length(), self.count(), self.type_(), self.version());
+    fn scramble(&self) -> Value {
+        let mut out: Vec<Value> = vec![];
+        out.push(json!(format!("{:?}", self.report_blocks().last().map(|b| (b.delay_since_last_sender_report_timestamp(), b.ssrc())))));
+        out.push(json!(format!("{:?}", (self.n_reports(), self.octet_count(), self.packet_count(), self.rtp_timestamp(), self.ntp_timestamp(), self.padding(), self.ssrc()))));
+        out.push(json!(format!("{:?}", (self.length(), self.count(), self.type_(), self.version()))));        Value::Array(out)
     }
 }
 impl Scramble for ReceiverReport<'_> {
-    fn scramble(&self) {
-        let _ = self.report_blocks().last().map(|b| (b.interarrival_jitter(), b.cumulative_lost(), b.fraction_lost()));
-        let _ = (self.n_reports(), self.padding(), self.ssrc(), self.length(), self.count());
+    fn scramble(&self) -> Value {
+        let mut out: Vec<Value> = vec![];
+        out.push(json!(format!("{:?}", self.report_blocks().last().map(|b| (b.interarrival_jitter(), b.cumulative_lost(), b.fraction_lost())))));
+        out.push(json!(format!("{:?}", (self.n_reports(), self.padding(), self.ssrc(), self.length(), self.count()))));        Value::Array(out)
     }
 }
 impl Scramble for Sdes<'_> {
-    fn scramble(&self) {
+    fn scramble(&self) -> Value {
+        let mut out: Vec<Value> = vec![];
         let chunks: Vec<_> = self.chunks().collect();
         for ch in chunks.iter().rev() {
             let items: Vec<_> = ch.items().collect();
             for it in items.iter().rev() {
-                let _ = (it.get_value_string().is_ok(), it.value().len(), it.length(), it.type_());
+                out.push(json!(format!("{:?}", (it.get_value_string().is_ok(), it.value().len(), it.length(), it.type_()))));
             }
-            let _ = (ch.length(), ch.ssrc());
+            out.push(json!(format!("{:?}", (ch.length(), ch.ssrc()))));
         }
-        let _ = (self.padding(), self.length(), self.count());
+        out.push(json!(format!("{:?}", (self.padding(), self.length(), self.count()))));        Value::Array(out)
     }
 }
 impl Scramble for Bye<'_> {
-    fn scramble(&self) {
-        let _ = self.get_reason_string();
-        let _ = self.reason();
-        let _ = self.ssrcs().last();
-        let _ = (self.padding(), self.length(), self.count());
+    fn scramble(&self) -> Value {
+        let mut out: Vec<Value> = vec![];
+        out.push(json!(format!("{:?}", self.get_reason_string())));
+        out.push(json!(format!("{:?}", self.reason())));
+        out.push(json!(format!("{:?}", self.ssrcs().last())));
+        out.push(json!(format!("{:?}", (self.padding(), self.length(), self.count()))));        Value::Array(out)
     }
 }
 impl Scramble for App<'_> {
-    fn scramble(&self) {
-        let _ = (self.data().len(), self.get_name_string().is_ok(), self.name(), self.ssrc(), self.padding(), self.subtype(), self.length());
+    fn scramble(&self) -> Value {
+        let mut out: Vec<Value> = vec![];
+        out.push(json!(format!("{:?}", (self.data().len(), self.get_name_string().is_ok(), self.name(), self.ssrc(), self.padding(), self.subtype(), self.length()))));        Value::Array(out)
     }
 }
 impl Scramble for TransportFeedback<'_> {
-    fn scramble(&self) {
-        let _ = self.parse_fci::<Fir>().map(|f| f.entries().count());
-        let _ = self.parse_fci::<Rpsi>().map(|f| f.bit_string().1);
-        let _ = self.parse_fci::<Sli>().map(|f| f.lost_macroblocks().count());
-        let _ = self.parse_fci::<Pli>().is_ok();
-        let _ = self.parse_fci::<Nack>().map(|f| f.entries().last());
-        let _ = (self.media_ssrc(), self.sender_ssrc(), self.padding(), self.count(), self.length());
+    fn scramble(&self) -> Value {
+        let mut out: Vec<Value> = vec![];
+        out.push(json!(format!("{:?}", self.parse_fci::<Fir>().map(|f| f.entries().count()))));
+        out.push(json!(format!("{:?}", self.parse_fci::<Rpsi>().map(|f| f.bit_string().1))));
+        out.push(json!(format!("{:?}", self.parse_fci::<Sli>().map(|f| f.lost_macroblocks().count()))));
+        out.push(json!(format!("{:?}", self.parse_fci::<Pli>().is_ok())));
+        out.push(json!(format!("{:?}", self.parse_fci::<Nack>().map(|f| f.entries().last()))));
+        out.push(json!(format!("{:?}", (self.media_ssrc(), self.sender_ssrc(), self.padding(), self.count(), self.length()))));        Value::Array(out)
     }
 }
 impl Scramble for PayloadFeedback<'_> {
-    fn scramble(&self) {
-        let _ = self.parse_fci::<Fir>().map(|f| f.entries().last().map(|e| (e.sequence(), e.ssrc())));
-        let _ = self.parse_fci::<Rpsi>().map(|f| (f.bit_string().1, f.payload_type()));
-        let _ = self.parse_fci::<Sli>().map(|f| f.lost_macroblocks().last().is_some());
-        let _ = self.parse_fci::<Pli>().is_ok();
-        let _ = self.parse_fci::<Nack>().map(|f| f.entries().count());
-        let _ = (self.media_ssrc(), self.sender_ssrc(), self.padding(), self.count(), self.length());
+    fn scramble(&self) -> Value {
+        let mut out: Vec<Value> = vec![];
+        out.push(json!(format!("{:?}", self.parse_fci::<Fir>().map(|f| f.entries().last().map(|e| (e.sequence(), e.ssrc()))))));
+        out.push(json!(format!("{:?}", self.parse_fci::<Rpsi>().map(|f| (f.bit_string().1, f.payload_type())))));
+        out.push(json!(format!("{:?}", self.parse_fci::<Sli>().map(|f| f.lost_macroblocks().last().is_some()))));
+        out.push(json!(format!("{:?}", self.parse_fci::<Pli>().is_ok())));
+        out.push(json!(format!("{:?}", self.parse_fci::<Nack>().map(|f| f.entries().count()))));
+        out.push(json!(format!("{:?}", (self.media_ssrc(), self.sender_ssrc(), self.padding(), self.count(), self.length()))));        Value::Array(out)
     }
 }
 impl Scramble for Unknown<'_> {
-    fn scramble(&self) {
-        let _ = (self.data().len(), self.length(), self.count(), self.type_(), self.version());
+    fn scramble(&self) -> Value {
+        let mut out: Vec<Value> = vec![];
+        out.push(json!(format!("{:?}", (self.data().len(), self.length(), self.count(), self.type_(), self.version()))));        Value::Array(out)
     }
 }
 
@@ -472,11 +481,16 @@ pub fn typed(kind: &str, data: &[u8], pfx: &str, panics: &mut Vec<String>) -> Va
                     mine.as_object_mut().map(|o| o.remove("again"));
                     v["as_packet"] = json!({"variant": pv["variant"], "same": inner == mine});
                     // a FRESH parse of the same bytes whose accessors are first touched in another order
+                    // ... and what those reads return on the fresh value equals what they return on a value
+                    // that has been read completely in the usual order before
                     let fresh = <$T>::parse(data).unwrap();
-                    let _ = guarded(|| fresh.scramble());
+                    let s1 = guarded(|| fresh.scramble()).ok();
                     let (mut fv, _) = $view(&fresh, data, pfx).done();
                     fv.as_object_mut().map(|o| o.remove("again"));
-                    v["fresh_same"] = json!(fv == mine);
+                    let used = <$T>::parse(data).unwrap();
+                    let _ = $view(&used, data, pfx).done();
+                    let s2 = guarded(|| used.scramble()).ok();
+                    v["fresh_same"] = json!(fv == mine && s1.is_some() && s1 == s2);
                 }
                 v
             }};
